@@ -101,7 +101,7 @@ PLAN = {
               "sufficient or insufficient deposit), votes, direct oracle-list updates, add-delegate, unbond, delegations, absent validators - interleaved with real FinalizeBlock+Commit of all begin/end blockers with time steps 5 s / 1 h / 15 d / 22 d. Oracle: no error, no panic. "
               "non-trivial = a block was processed while an online oracle had left an oracle set / batch / outgoing bridge call older than the signed window unconfirmed, or a proposal ended"),
         assumptions=["oracle claims are injected through the MsgClaim handler with unpacked claims (wire delivery of MsgClaim is impossible on this snapshot)", "governance raw store updates are restricted to value-preserving or failing ones (writing garbage into a module store is outside 'valid')"],
-        quick=[dict(test="TestC07", cases=320, shards=16, timeout=900)],
+        quick=[dict(test="TestC07", cases=960, shards=16, timeout=900)],
         thorough=[dict(test="TestC07", cases=9600, shards=16, timeout=3400, shrink=120)],
     ),
     "C10": dict(
@@ -177,5 +177,17 @@ PLAN = {
         assumptions=["a dependence that shows with probability p per replica is detected with probability 1-(1-p)^k for k extra replicas only", "operations that cannot travel in transactions on this snapshot (oracle claims) are applied to the block being built through the real handlers, identically on every replica"],
         quick=[dict(test="TestC17", cases=480, shards=16, timeout=900)],
         thorough=[dict(test="TestC17", cases=8000, shards=16, timeout=3400, shrink=120)],
+    ),
+    "C18": dict(
+        level="exploration",
+        rule=("one fault point per case on a branch of the base state. event: an observed event whose handler fails (duplicate bridge token, FX with wrong decimals, oracle-set update for an unknown nonce) on each of 3 chains - the store diff must lie inside the attestation bookkeeping keys of that chain. "
+              "bridgecall: an inbound bridge call with 1-3 distinct tokens (FX, module-owned, externally-owned - the latter after one executed outgoing transfer so that the event is admissible) observed and executed through executeClaim, with the follow-up failing at a generated point: callback mode with a callee that reverts / hits INVALID / writes storage then reverts / writes storage then loops until the generated bridge-call gas limit (default, 21k, 60k, 150k, 1M) / succeeds / is no contract; "
+              "send-call-to mode with a Runner script (0-3 token transfers / crossChain calls from the Runner's own funds, caught or not) ending in REVERT / INVALID / gas burn / RETURN; conversion disabled for the k-th token; refund address = receiver / a funded user / a fresh address. Oracle: a failing follow-up settles the claim (executeClaim succeeds, pending entry gone) with a refund record carrying exactly the claim's tokens and refund address, "
+              "and leaves the holdings (bank base + bridge denominations + ERC-20) of receiver, callee, refund address, sender, three users and the executor, every supply and the callee's storage unchanged; a follow-up that must fail is never settled as a success. "
+              "proposal: n = 1..4 same-type messages (community-pool spends / oracle-list updates / erc20 toggles) whose i-th fails with an error or a panic, voted through by all validators and tallied by the real gov end blocker: the full store dump equals, outside the governance store, the dump reached from the same pre-state by a proposal consisting of the failing message alone. "
+              "non-trivial = the failure happens after at least one write of the failed sub-step (storage write, earlier token converted, script step, earlier message)"),
+        assumptions=["the IBC boundary is covered by C19's machinery"],
+        quick=[dict(test="TestC18", cases=1600, shards=16, timeout=900)],
+        thorough=[dict(test="TestC18", cases=48000, shards=16, timeout=3400, shrink=120)],
     ),
 }
